@@ -54,9 +54,9 @@ from ..engine.resolver import FuncInfo, Program, body_walk
 from ..engine.terms import Poly, TermEval
 from ..engine.util import find_calls, method_call, nodes_with_call, u
 from ._c02_util import (BDA, BM, MOD, MinMax, Region, Roles, Wrong, all_calls, at, at_least, callee, ctor_args,
-                        discover_roles, fields_of, is_zero, negative_established, nonzero_established, ordered,
+                        discover_roles, fields_of, has, is_zero, negative_established, nonzero_established, ordered,
                         zero_test,
-                        prep, regions, strictly, table_sources, test_paths, the_call, writes)
+                        prep, q, regions, sc, strictly, table_sources, test_paths, the_call, value_before, writes)
 
 
 # --------------------------------------------------------------------------------------------- shapes
@@ -166,6 +166,10 @@ def check_cap(run: Run, prog: Program) -> None:
         raise AnalysisError(f"{MOD}:_Power: fields power / upper_bound not found")
     # ---- greedy top-up: every change of a cell's power is capped by that cell's own upper bound and
     #      happens only after the cell's allocation was found to be non-zero
+    #      (when the top-up is not a function of its own the allocation function plays its role: there the
+    #      hand-out of the reserve — a cell raised by the item value of the table the loop runs over — is
+    #      the matter of C02.BOOK / C02.RES, every other change of a cell's power is a top-up)
+    own = has(prog, "greedy")
     gr = prep(prog, q(prog, "greedy"))
     run.analysed(gr.qual)
     n = 0
@@ -173,7 +177,7 @@ def check_cap(run: Run, prog: Program) -> None:
         for p, _st in r.paths:
             touched: set[str] = set()
             for e in p.effects:
-                if e.kind == "call" and callee(e.node) == "_Power":
+                if own and e.kind == "call" and callee(e.node) == "_Power":
                     a = ctor_args(e.node, pf, gr.qual)  # type: ignore[arg-type]
                     if not ("power" in a and is_zero(a["power"])):
                         n += 1
@@ -198,6 +202,8 @@ def check_cap(run: Run, prog: Program) -> None:
                 mm = MinMax()
                 new = mm.ev(val)
                 if new == Poly.atom(f"{cell}.power"):
+                    continue
+                if not own and _hands_out(r, new - Poly.atom(f"{cell}.power")):
                     continue
                 n += 1
                 run.check(mm.capped(new, Poly.atom(f"{cell}.upper_bound")), "C02.CAP", gr.qual, text,
@@ -236,14 +242,44 @@ def check_cap(run: Run, prog: Program) -> None:
     run.analysed(ar.qual)
     excl = roles.ar["excl"]
     for _r, _p, e, a in _records(prog, ar, regions(ar.node)):
-        mp = a.get("min_power")
-        ok = mp is not None and "battery_id" in a and "inverter_ids" in a and _either(
-            _two(mp, "max"), lambda x: _sub(x, excl, u(a["battery_id"])),
-            lambda x: _over(x, "min", excl, u(a["inverter_ids"])))
+        ok = _min_power_shape(a, excl)
         run.check(ok, "C02.CAP", ar.qual, "min_power = max(excl[battery], min_i excl[inverter_i])",
                   "a group's minimum power is not max(battery exclusion bound, smallest inverter "
                   "exclusion bound): allocations can fall inside an exclusion zone", node=at(e.lineno),
                   file=ar.file, instance=f"{ar.qual}: min_power = max(excl[battery], min_i excl[inverter_i])")
+
+
+def _hands_out(r: Region, change: Poly) -> bool:
+    """The change of a cell's power is the item value of the table the region's loop iterates with `.items()`."""
+    it = getattr(r.loop, "iter", None)
+    return isinstance(it, ast.Call) and isinstance(it.func, ast.Attribute) and it.func.attr == "items" and any(
+        change == Poly.atom(val) for _k, val in r.cell_pairs())
+
+
+def _top_ups(prog: Program, dp: FuncInfo) -> list[tuple[Region, Any, str, str | None]]:
+    """Top-up sites inside the allocation function (top-up inlined): (region, path, cell text, name of the
+    remainder the path reduces by exactly what the cell receives)."""
+    out = []
+    te = TermEval()
+    for r in regions(dp.node):
+        if r.kind == "top":
+            continue
+        for p, _st in r.paths:
+            for _e, tgt, val in writes(p, lambda t, _v: isinstance(t, ast.Attribute) and t.attr == "power"):
+                d = te.ev(val) - Poly.atom(u(tgt))
+                if d.is_zero() or _hands_out(r, d):
+                    continue
+                rem = [nm for nm in p.env if not nm.startswith("<") and _delta(te, p, nm) == -d]
+                out.append((r, p, u(tgt.value), rem[0] if len(rem) == 1 else None))  # type: ignore[attr-defined]
+    return out
+
+
+def _min_power_shape(a: dict[str, ast.AST], excl: str) -> bool:
+    """The record's min_power is max(excl[its battery id], min(excl[v] for v in its inverter ids))."""
+    mp = a.get("min_power")
+    return mp is not None and "battery_id" in a and "inverter_ids" in a and _either(
+        _two(mp, "max"), lambda x: _sub(x, excl, u(a["battery_id"])),
+        lambda x: _over(x, "min", excl, u(a["inverter_ids"])))
 
 
 def _nonzero_creations(prog: Program, dp: FuncInfo, pf: list[str]):
@@ -619,13 +655,28 @@ def check_book(run: Run, prog: Program) -> None:
     regs = regions(dp.node)
     te = TermEval()
     # the ledger: the remainder handed to the top-up is `<request parameter> - <ledger after the loops>`
-    grp = _own_params(prog.func(q(prog, "greedy")))
     ledgers: set[str] = set()
     request = None
     seen_args: list[str] = []
-    for _r, _p, e in the_call(regs, sc(prog, "greedy"), dp, "C02.BOOK"):
-        seen_args.append(u(e.node))
-        for a in positional(e.node, grp).values():  # type: ignore[arg-type]
+    remainders: list[ast.AST] = []
+    complements: list[str] = []      # top-up inlined: the local(s) the top-up reduces by what the cells receive
+    if has(prog, "greedy"):
+        grp = _own_params(prog.func(q(prog, "greedy")))
+        for _r, _p, e in the_call(regs, sc(prog, "greedy"), dp, "C02.BOOK"):
+            seen_args.append(u(e.node))
+            remainders.extend(positional(e.node, grp).values())  # type: ignore[arg-type]
+    else:
+        sites = _top_ups(prog, dp)
+        complements = sorted({rem for _r, _p, _c, rem in sites if rem is not None})
+        if not sites or len(complements) != 1 or any(rem is None for _r, _p, _c, rem in sites):
+            raise AnalysisError(f"{dp.qual}: no top-up function and no top-up loop with one remainder found")
+        vals = value_before(dp.node, complements)
+        if vals is None:
+            raise AnalysisError(f"{dp.qual}: value of `{complements[0]}` before the top-up not found")
+        remainders.extend(vals)
+        seen_args.append(f"{complements[0]} = {u(vals[0])}")
+    if True:
+        for a in remainders:
             poly = te.ev(a)
             pos = [m for m, c in poly.terms.items() if c == 1]
             neg = [m for m, c in poly.terms.items() if c == -1]
@@ -682,6 +733,8 @@ def check_book(run: Run, prog: Program) -> None:
             booked = Poly()
             for nm in names:
                 booked = booked + _delta(te, p, nm)
+            for nm in complements:      # inlined top-up: what the remainder loses is what the cells gain
+                booked = booked - _delta(te, p, nm)
             if gain.is_zero() and booked.is_zero():
                 continue
             touched = True
@@ -721,13 +774,13 @@ def check_book(run: Run, prog: Program) -> None:
         paths = [(p, writes(p, lambda t, _v: _sub(t, res))) for p, _st in r.paths]
         if not any(w for _p, w in paths):
             continue
-        q: Region | None = r
+        cur: Region | None = r
         q0: Region | None = None
         covered = None
-        while q is not None and covered is None:
-            if q.kind == "loop" and isinstance(q.loop, (ast.For, ast.AsyncFor)) and q.cell_pairs():
-                covered, q0 = q.cell_pairs()[0][1], q
-            q = q.parent
+        while cur is not None and covered is None:
+            if cur.kind == "loop" and isinstance(cur.loop, (ast.For, ast.AsyncFor)) and cur.cell_pairs():
+                covered, q0 = cur.cell_pairs()[0][1], cur
+            cur = cur.parent
         if covered is None:
             raise AnalysisError(f"{dp.qual}: line {getattr(r.loop, 'lineno', '?')}: the reserve table is changed "
                                 "outside a loop over the deficits")
@@ -1199,7 +1252,7 @@ def check_adm_min(run: Run, prog: Program) -> None:
     Lemma (all exclusion magnitudes >= 0):  Σ_g max(b_g, Σ_i x_gi) >= Σ_g max(b_g, min_i x_gi) = Σ_g min_power_g,
     so an admitted request never makes the reservation loop over-commit.  `max(Σ_g b_g, Σ_gi x_gi)`
     does NOT dominate it (battery-dominated and inverter-dominated groups mixed)."""
-    from .c17 import enforced, min_power_shape_ok
+    from .c17 import enforced
     enf = enforced(prog)
     fn = enf["fn"]
     run.analysed(fn.qual)
@@ -1215,7 +1268,15 @@ def check_adm_min(run: Run, prog: Program) -> None:
                   "exclusion zone or is commanded against the sign of the request",
                   node=fn.node, file=fn.file,
                   instance=f"{fn.qual}: {fld} dominates Σ_g min_power_g")
-    ar, ok = min_power_shape_ok(prog)
+    # the other side of the lemma: min_power_g as the records carry it (same shape rule as C02.CAP, on the
+    # function that plays the availability-ratio role)
+    ar = prep(prog, q(prog, "ar"))
+    try:
+        excl = _roles(prog).ar.get("excl")
+    except Wrong:
+        excl = None
+    recs = _records(prog, ar, regions(ar.node))
+    ok = excl is not None and all(_min_power_shape(a, excl) for _r, _p, _e, a in recs)
     run.check(ok, "C02.ADM", ar.qual, "min_power_g = max(b_g, min_i x_i)",
               "a group's minimum power is not max(battery exclusion, smallest inverter exclusion): the "
               "dominance of the enforced exclusion bound over Σ_g min_power_g is not established",
